@@ -176,7 +176,9 @@ PARAM_OPS = [
     # dict: the column format holds {str: float} dictionaries when every object of the class has
     # one (union of keys, NaN-filled), so every block gets one and B0 gets an extra key
     # (same size, different key set on a non-first block; one more key on another)
-    ["pdict", "B0", "reactionRates", {"nG": 1.5, "nF": 2.5}, {"nG": 1.0, "nF": 2.0}, [["B2", {"nG": 3.0, "n2n": 0.5}], ["B1", {"nG": 4.0, "nF": 0.25, "nA": 0.125}]]],
+    ["pdict", "B0", "reactionRates", {"nG": 1.5, "nF": 2.5}, {"nG": 1.0, "nF": 2.0}, [["B2", {"nG": 3.0, "n2n": 0.5}]]],
+    # dictionaries of different sizes
+    ["pdict", "B1", "reactionRates", {"nG": 4.0, "nF": 0.25, "nA": 0.125}, {"nG": 1.0}, []],
     # Component: float, no-default float, no-default str, array
     ["p", "K0.clad", "percentBu", 1.75],
     ["p", "K0.fuel", "buRate", 0.0625],
@@ -220,11 +222,9 @@ STATE_OPS = [
 SUB2 = [
     ["p", "B0", "mgFlux"],
     ["ragged", "pinMgFluxes"],
-    ["p", "K0.fuel", "pinPercentBu"],
     ["nd", "K0.fuel", "PU239"],
     ["ndswap", "K2.coolant"],
     ["write"],
-    ["temp", "K0.fuel"],
     ["dim", "K0.clad"],
     ["link"],
     ["unlink"],
